@@ -712,6 +712,8 @@ func runC05(c *config) {
 	}
 	// the number of an unnamed local written a second time (c05ids.go)
 	c05RepeatedIDs(c)
+	// undefined names next to same-named entities of other namespaces and namesakes of the carrier (c05shadow.go)
+	c05Shadowed(c)
 }
 
 // ---- C12
@@ -887,6 +889,8 @@ func runC12(c *config) {
 	for idx, src := range inputs {
 		firstRound[idx] = digestOf(src)
 	}
+	// operations that fail (prints that panic, writers that fail, parses that crash) before and between (c12fail.go)
+	c12FailingHistory(c, inputs, firstRound)
 	// whatever was parsed or printed earlier in the process: a second round over all inputs, in reverse
 	for idx := len(inputs) - 1; idx >= 0; idx-- {
 		if d := digestOf(inputs[idx]); d != firstRound[idx] {
